@@ -137,3 +137,4 @@ MANIFEST = {
             'Exploration over up to 30 x 12 x 10 agents.',
     'note': 'Trusted: refmodel.parse; seeding of the global RNGs.',
 }
+MANIFEST['text'] += (' ' + 'Shapes: unrelated earlier Generator run in the same process; 256..300 first-side agents with few second-side ones.')
